@@ -185,6 +185,9 @@ func runC06(r *run) {
 			slog.SetLevelColors(slog.Level(c.lvl), color.Color(fg), color.Color(bg))
 			r.emit(fmt.Sprintf("C17 setcolors %d %d %d", c.lvl, fg, bg), "ok")
 		}
+		if i%10 == 9 {
+			encStringerNoise([]string{"l", "j", "c"}[(i/10)%3])
+		}
 		encRun(r, "C06", c)
 		lines := strings.Count(strings.TrimRight(c.msg, "\n\r"), "\n") + 1
 		kinds := map[string]bool{}
